@@ -17,8 +17,13 @@ P1, P2, PR = "Player 1", "Player 2", "Probabilistic"
 
 
 def medium_game(seed, n_inner, n_finals=2, n_sinks=2, p_back=0.35, reward_pool=(0, 0, 1, 2, 5, 0.5), max_k=4,
-                dead_frac=0.15):
+                dead_frac=0.15, numbering=None):
+    """numbering: 'random' (a random permutation fixing the initial state), 'forward' (rank order, absorbing
+    states last - the layout of the board generator, where values flow from high to low indices) or
+    'backward' (absorbing states first).  Default: chosen from the seed."""
     rnd = random.Random(seed)
+    if numbering is None:
+        numbering = ("random", "forward", "backward")[seed % 3]
     n = n_inner + n_finals + n_sinks
     finals_a = list(range(n_inner, n_inner + n_finals))
     sinks_a = list(range(n_inner + n_finals, n))
@@ -26,6 +31,10 @@ def medium_game(seed, n_inner, n_finals=2, n_sinks=2, p_back=0.35, reward_pool=(
     dead = {a for a in range(1, n_inner) if rnd.random() < dead_frac}
     order = list(range(1, n))
     rnd.shuffle(order)
+    if numbering == "forward":
+        order = list(range(1, n))
+    elif numbering == "backward":
+        order = list(range(n - 1, 0, -1))
     ids = {0: 0}
     for a, num in zip(range(1, n), order):
         ids[a] = num
